@@ -1,5 +1,5 @@
 (* C12 — Delete removes only what it reports, and reports it exactly. *)
-From KV Require Import Base Model Helpers Spec LogInv DeleteProofs CompactProofs MultiProofs.
+From KV Require Import Base Model Helpers Spec LogInv DeleteProofs CompactProofs MultiProofs History XHistory.
 
 (* for every state satisfying Inv and every offset set: a successful Delete either deletes nothing and
    leaves the state as it is, or
@@ -73,3 +73,13 @@ Theorem C12_delete_again :
   log_delete H st offs = Ok (st', (deleted, size)) -> deleted = [] /\ st' = st /\ size = 0.
 Proof. exact log_delete_dead. Qed.
 Print Assumptions C12_delete_again.
+
+(* DeleteMulti in ANY state a handle can be in, for ANY offset set and whatever it returns - also an error after some
+   passes have already removed messages: the log has lost exactly the messages it reports, every other message keeps
+   its offset and content, NextOffset is unchanged *)
+Theorem C12_delete_multi_removes_exactly_what_it_reports :
+  forall (H : bytes -> Z) st offs st' del size e,
+  Good st -> log_delete_multi H st offs = (st', del, size, e) ->
+  Good st' /\ abs st' = mkAlog (remove_msgs (live (abs st)) del) (anext (abs st)).
+Proof. exact log_delete_multi_good. Qed.
+Print Assumptions C12_delete_multi_removes_exactly_what_it_reports.
